@@ -274,7 +274,7 @@ def step_vcs(quick=True):
                                                                   z3.Implies(cont, z3.Implies(ET > 0, z3.Select(hm.arr["es_patience_cd"], e) > 0)))))
                 return [z3.And([g for _, g in goals])]
 
-            def twin(p):  # must fail: "never stops early"
+            def twin(p, ne_set=ne_set):  # must fail: "never stops early"
                 if not api.returns(p):
                     return None
                 cont = p.value if ip.is_z3(p.value) else z3.BoolVal(bool(p.value))
